@@ -1,10 +1,23 @@
 """C07 determinant and inverse.  Case: (7 op ty (n0 n1) rows cols (x ...) (pr pc))
    op 1 = determinant, 2 = inverse, 3 = f64 determinant + inverse presence on integer entries in
-   -3..3 (the float result must be the exact integer determinant: exactly 0.0 when singular);
+   -3..3 (the float result must be the exact integer determinant: exactly 0.0 when singular),
+   4 = op 3 on the entries scaled by 2^-k (k = the ty field, 0..60; scaling by powers of two is
+   exact, so the f64 determinant must be det * 2^(-k n) and the inverse present exactly when the
+   integer determinant is non-zero, however tiny the scaled determinant),
+   5 = FLOAT tier (ty 0 = f64, 1 = f32, +2 = marked well-conditioned; entries (m k) = m / 10^k):
+   the model predicts only the presence of the determinant; the harness checks the
+   rounding-independent observables (all entry points of a route bit for bit; inverse of each route
+   present exactly when the crate's own determinant is != 0; Matrix and tensor routes agree on
+   presence; A X = I = X A within a tolerance where marked well-conditioned);
    ty 0 = Rat (entries (num den)), 1 = Fp (residues mod 2^31-1), 2 = Wrapping<i64> (a ring that
    is NOT a field: only + - * may be used for the determinant), 3 = Trace<Rat> (dual numbers,
    entries ((num den) (num den)) = number and derivative; == compares numbers only, so a
-   zero-valued entry with a derivative must not be skipped);
+   zero-valued entry with a derivative must not be skipped), 4 = StrictRat (the values and
+   encodings of Rat, but the implementation's `/` PANICS on a zero divisor; the model runs the
+   division-instrumented inverse and predicts value / absence / panic `(2)` — by theorem never a
+   panic: inverse divides only by the determinant, after testing it; inputs: every 2x2 over
+   {-1,0,1,2}, the singular 3x3 over {-1,0,1}, 1x1 incl. zero, every singular family 2..5,
+   random 1..5, non-square);
    n0 n1 = dimension names of the tensor forms; (pr pc) = position of the hidden row / column of
    the harness' masked view.  Result: (matrix-route tensor-route), each absent `()` or present
    with the exact value / the exact inverse (tensor route: with its shape and names).
@@ -18,7 +31,8 @@ THEOREMS_FILE = "C07"
 ASSUMPTIONS = [
     "C07 theorems: every size n >= 1 (Heap's enumeration proved for all n in Proofs/C07HeapN.v; the older n <= 7 kernel evaluation is kept as a cross-check); the correspondence runs sizes 1..6 (plus non-square shapes up to 8 columns)",
     "views: the model receives the CONTENT of the view; the view adaptors themselves (transpose, mask, range, index_by) are C02's subject and are only cross-checked here against the plain tensor result",
-    "floats ('to rounding accuracy') are not modelled: exact element types only (Rat, Fp)",
+    "floats ('to rounding accuracy') are not modelled: exact element types only (Rat, Fp), plus the exact-integer f64 oracles op 3 / op 4 (entries in -3..3, optionally scaled by 2^-k)",
+    "division by zero is a MODEL OUTCOME for element type 4 (StrictRat): the model side runs the division-instrumented inverse (Model/LinAlgDiv.v, strict_div); theorem C07_inverse_never_divides_by_zero: no input panics (inverse divides only one by the determinant, after testing it). Other panic sources are not modelled",
 ]
 
 
@@ -28,7 +42,7 @@ def num(ty, v):
         return v
     if ty == 3:
         return [num(0, v[0]), num(0, v[1])]
-    if ty == 0:
+    if ty == 0 or ty == 4:
         if isinstance(v, tuple):
             return [v[0], v[1]]
         return [v, 1]
@@ -61,7 +75,7 @@ def rand_entry(rng, ty, kind):
 
 def gen(tier, rng):
     # shuffled so that the expensive sizes are spread over the parallel shards
-    cases = list(_gen(tier, rng))
+    cases = list(_gen(tier, rng)) + list(_strict(tier, rng))
     rng.shuffle(cases)
     return cases
 
@@ -221,6 +235,55 @@ def _gen(tier, rng):
                 sgn = rng.choice([1, -1])
                 m[a] = [m[b][j] + sgn * m[c][j] for j in range(n)]
             yield sx([7, 3, 0, list(rand_names(rng)), n, n, [x for r in m for x in r], list(pads(n, n))])
+    # ---- op 4: the same on entries scaled by 2^-k (tiny but non-zero determinants: the inverse
+    #      must be present exactly when the integer determinant is non-zero)
+    for n in range(1, 7):
+        for _ in range((20 if n < 6 else 6) if quick else 120):
+            m = [[rng.randrange(-3, 4) for _ in range(n)] for _ in range(n)]
+            fam = rng.randrange(5)
+            if n >= 2 and fam == 0:
+                a, b = rng.sample(range(n), 2)
+                m[a] = list(m[b])
+            elif fam == 1:
+                m = [[(rng.choice([1, 2, 3, -1]) if i == j else 0) for j in range(n)] for i in range(n)]
+            k = rng.choice([1, 10, 20, 27, 30, 40, 53, 60])
+            yield sx([7, 4, k, list(rand_names(rng)), n, n, [x for r in m for x in r], list(pads(n, n))])
+    for (r, c) in [(2, 3), (3, 1)]:
+        yield sx([7, 4, 30, [0, 1], r, c, [rng.randrange(-3, 4) for _ in range(r * c)], list(pads(r, c))])
+    # ---- op 5: FLOAT tier (f64 / f32): scaled identities, scaled diagonally dominant (marked
+    #      well-conditioned while n*k keeps the determinant a normal number), random matrices scaled by
+    #      10^-k for k up to 200 (f64) / 30 (f32), exactly singular (zero row / equal rows) ones, the
+    #      documented inputs of seed C07-v2, non-square
+    def fcase(ty, n, c, mk, names=None):
+        return sx([7, 5, ty, list(names or rand_names(rng)), n, c, [list(e) for e in mk], list(pads(n, c))])
+    yield fcase(2, 2, 2, [(2, 9), (1, 9), (1, 9), (3, 9)])                      # [[2e-9,1e-9],[1e-9,3e-9]]
+    yield fcase(2, 3, 3, [((1 if i == j else 0), 6) for i in range(3) for j in range(3)])   # 1e-6 * I_3
+    yield fcase(3, 2, 2, [(1, 4), (0, 0), (0, 0), (1, 4)])                      # f32 1e-4 * I_2
+    for f32_ in (0, 1):
+        kmax, lim = (30, 30) if f32_ else (200, 250)
+        ks = [0, 1, 3, 4, 6, 8, 9, 12, 20, 30] + ([] if f32_ else [50, 100, 150, 200])
+        for n in range(1, 6):
+            for k in ks:
+                for _ in range(1 if quick else 5):
+                    wc = 2 if n * k <= lim else 0
+                    # scaled identity / scaled diagonal
+                    dg = [rng.choice([1, 1, 2, 3, -1]) for _ in range(n)]
+                    yield fcase(f32_ + wc, n, n, [((dg[i] if i == j else 0), k) for i in range(n) for j in range(n)])
+                    # diagonally dominant small integers, scaled
+                    m = [[rng.randrange(-1, 2) for _ in range(n)] for _ in range(n)]
+                    for i in range(n):
+                        m[i][i] = rng.choice([-1, 1]) * (n + 1 + rng.randrange(3))
+                    yield fcase(f32_ + wc, n, n, [(m[i][j], k) for i in range(n) for j in range(n)])
+                    # random (conditioning unknown: consistency checks only), mixed scales
+                    yield fcase(f32_, n, n, [(rng.randrange(-999, 1000), rng.choice([k, k, max(0, k - 2)])) for _ in range(n * n)])
+                    if n >= 2:
+                        # exactly singular: a zero row, or two equal rows
+                        m2 = [[(rng.randrange(-9, 10), k) for _ in range(n)] for _ in range(n)]
+                        a, b = rng.sample(range(n), 2)
+                        m2[a] = [(0, 0)] * n if rng.random() < 0.5 else list(m2[b])
+                        yield fcase(f32_, n, n, [e for r in m2 for e in r])
+        for (r, c) in [(2, 3), (3, 1)]:
+            yield fcase(f32_, r, c, [(rng.randrange(-9, 10), 3) for _ in range(r * c)])
     for (r, c) in [(2, 3), (3, 2), (4, 5), (1, 6)]:
         yield sx([7, 3, 0, [0, 1], r, c, [rng.randrange(-3, 4) for _ in range(r * c)], list(pads(r, c))])
     # ---- non-square shapes (all r != c up to 5, plus a few larger)
@@ -235,6 +298,63 @@ def _gen(tier, rng):
                 yield case(op, ty, names, r, c, vals, pad)
 
 
+def _det3(v):
+    return (v[0] * (v[4] * v[8] - v[5] * v[7]) - v[1] * (v[3] * v[8] - v[5] * v[6])
+            + v[2] * (v[3] * v[7] - v[4] * v[6]))
+
+
+def _strict(tier, rng):
+    """ty 4 = StrictRat: det = 0 on a type whose division panics (the zero test must come first)"""
+    quick = tier == "quick"
+    pads = lambda r, c: (rng.randrange(r + 1), rng.randrange(c + 1))
+    for vals in itertools.product((-1, 0, 1, 2), repeat=4):
+        for op in (1, 2):
+            yield case(op, 4, rand_names(rng), 2, 2, vals, pads(2, 2))
+    # every SINGULAR 3x3 over {-1,0,1} (7875 of 19683) for the inverse; a sample of the others
+    for vals in itertools.product((-1, 0, 1), repeat=9):
+        if _det3(vals) == 0:
+            if not quick or rng.random() < 0.4:
+                yield case(2, 4, (0, 1), 3, 3, vals, pads(3, 3))
+        elif rng.random() < (0.03 if quick else 0.3):
+            yield case(2, 4, (1, 0), 3, 3, vals, pads(3, 3))
+    for v in list(range(-3, 4)) + [(1, 3), (-7, 2), (0, 5)]:
+        for op in (1, 2):
+            yield case(op, 4, rand_names(rng), 1, 1, [v], pads(1, 1))
+    reps = 10 if quick else 80
+    for n in range(2, 6):
+        for fam in range(7):
+            for _ in range(reps if n < 5 else max(2, reps // 4)):
+                m = [[rng.randrange(-4, 5) for _ in range(n)] for _ in range(n)]
+                a, b = rng.sample(range(n), 2)
+                if fam == 0:
+                    m[a] = [0] * n
+                elif fam == 1:
+                    for r in m:
+                        r[a] = 0
+                elif fam == 2:
+                    m[a] = list(m[b])
+                elif fam == 3:
+                    for r in m:
+                        r[a] = r[b]
+                elif fam == 4:
+                    u = [rng.randrange(-3, 4) for _ in range(n)]
+                    v = [rng.randrange(-3, 4) for _ in range(n)]
+                    m = [[u[i] * v[j] for j in range(n)] for i in range(n)]
+                elif fam == 5:
+                    m = [[0] * n for _ in range(n)]
+                else:
+                    m[a] = list(m[b])
+                    j = rng.randrange(n)
+                    m[a][j] = (m[a][j] * 10 ** 9 + 1, 10 ** 9)
+                yield case(2, 4, rand_names(rng), n, n, [x for r in m for x in r], pads(n, n))
+        for _ in range(reps):
+            vals = [rand_entry(rng, 0, rng.choice([0, 0, 1, 2])) for _ in range(n * n)]
+            yield case(rng.choice([1, 2, 2]), 4, rand_names(rng), n, n, vals, pads(n, n))
+    for (r, c) in [(1, 2), (2, 1), (2, 3), (3, 2), (4, 3), (1, 5)]:
+        for op in (1, 2):
+            yield case(op, 4, rand_names(rng), r, c, [rng.randrange(-3, 4) for _ in range(r * c)], pads(r, c))
+
+
 def nontrivial(case, model_out):
     """a square input of size >= 2 (the permutation sum / cofactor machinery runs), or a 1x1 input,
     or a rejected non-square input"""
@@ -246,6 +366,6 @@ def distribution(lines):
     hist = {}
     for ln in lines:
         t = parse_sx(ln)
-        key = "op%d ty%d %dx%d" % (t[1], t[2], t[4], t[5])
+        key = "op%d ty%s %dx%d" % (t[1], t[2] if t[1] != 4 else "k", t[4], t[5])
         hist[key] = hist.get(key, 0) + 1
     return dict(sorted(hist.items()))
